@@ -241,6 +241,12 @@ def gen_staged(tier, rng):
                       rand_numeric(rng, fam, p_array=0.5 if arrays_in == 1 and mode == "numeric" else 0.0)) for n in first}
         stage2 = {n: (rand_numeric(rng, fam, p_array=0.5 if arrays_in == 2 and n in names and n not in first else 0.0)
                       if mode == "numeric" else rand_scalar(rng, wide=True)) for n in ["q0", "q1", "q2"]}   # wide: degree grows
+        if rng.random() < 0.15:
+            # tiny non-constant coefficients: the intermediate result must stay a polynomial
+            def scale(c):
+                return [scale(x) for x in c] if isinstance(c, list) else c * 2.0 ** -30
+            p["coefficients"] = [c if not any(e) else scale(c) for e, c in zip(p["exponents"], p["coefficients"])]
+            p["dtype"] = "float64"
         yield {"p": p, "first": place(rng, names, stage1), "second": stage2, "positional": rng.random() < 0.4}
 
 
